@@ -47,9 +47,14 @@ def needs_nonempty_components(unit, ctor):
     return None
 
 
+ALIAS = {}
+
+
 def sub_of(e, xd, idx=None):
-    """e is X[i] for the local X (decl xd); returns the index expression"""
+    """e is X[i] for the local X (decl xd), directly or through a local reference `T& c = X[i]`; returns the index expression"""
     e = strip(e)
+    if e is not None and e['k'] == 'DeclRefExpr' and e.get('d') in ALIAS:
+        e = strip(ALIAS[e['d']])
     if e is not None and e['k'] == 'CXXOperatorCallExpr' and e.get('op') == '[]' and len(e.get('args', [])) == 2:
         b = strip(e['args'][0])
         if b is not None and b['k'] == 'DeclRefExpr' and b.get('d') == xd:
@@ -70,6 +75,10 @@ def run(unit, em):
         if fn.body is None:
             continue
         vt = var_table(fn)
+        ALIAS.clear()
+        for d_, v_ in vt.items():
+            if v_['kind'] == 'local' and unit.ty(v_['decl']).rstrip().endswith('&') and is_node(v_['decl'].get('init')):
+                ALIAS[d_] = v_['decl']['init']
         for c in fn.walk():
             if c['k'] not in ('CXXConstructExpr', 'CXXTemporaryObjectExpr') or c.get('cd') not in pre:
                 continue
